@@ -89,3 +89,72 @@ def install_status_contract(acc, case_ref=None):
     wrapped._rtmon_contract = True
     type.__setattr__(cls, "from_ember_status", classmethod(wrapped))
     assert t.sl_Status is cls
+
+
+def install_ash_contracts(acc):
+    """icontract postconditions on the ASH byte-stuffing helpers and the adaptive ACK timeout,
+    live while the C01 / C02 / C05 workloads run (they are private helpers: when a refactoring
+    removes them the contracts simply report zero evaluations)."""
+    import icontract
+
+    import bellows.ash as ash
+
+    from . import ashref as R
+
+    cls = ash.AshProtocol
+
+    class AshContractBroken(Exception):
+        pass
+
+    if isinstance(cls.__dict__.get("_stuff_bytes"), staticmethod) and not getattr(cls._stuff_bytes, "_rtmon", False):
+        orig = cls.__dict__["_stuff_bytes"].__func__
+
+        def stuffed_output_is_clean_and_invertible(data, result):
+            acc.contract_evals["stuff_bytes"] += 1
+            out = bytes(result)
+            if any(b in R.RESERVED and b != R.ESC for b in out):
+                acc.violation("C03/contract/stuffed-output-contains-reserved-byte",
+                              f"stuffing {bytes(data).hex()} produced {out.hex()}", {"part": "contract"})
+            else:
+                try:
+                    if R.unstuff(out) != bytes(data):
+                        acc.violation("C03/contract/stuffing-not-invertible", f"{bytes(data).hex()} -> {out.hex()}", {"part": "contract"})
+                except R.Bad:
+                    acc.violation("C03/contract/stuffing-not-invertible", f"{bytes(data).hex()} -> {out.hex()} (invalid escape)", {"part": "contract"})
+            return True
+
+        w = icontract.ensure(stuffed_output_is_clean_and_invertible, error=AshContractBroken)(orig)
+        w._rtmon = True
+        cls._stuff_bytes = staticmethod(w)
+    if isinstance(cls.__dict__.get("_unstuff_bytes"), staticmethod) and not getattr(cls._unstuff_bytes, "_rtmon", False):
+        orig_u = cls.__dict__["_unstuff_bytes"].__func__
+
+        def unstuffed_equals_reference(data, result):
+            acc.contract_evals["unstuff_bytes"] += 1
+            try:
+                want = R.unstuff(bytes(data))
+            except R.Bad:
+                acc.violation("C02/contract/invalid-escape-accepted", f"unstuffing {bytes(data).hex()} returned {bytes(result).hex()}",
+                              {"part": "contract"})
+                return True
+            if bytes(result) != want:
+                acc.violation("C03/contract/unstuffing-differs", f"{bytes(data).hex()} -> {bytes(result).hex()}, reference {want.hex()}",
+                              {"part": "contract"})
+            return True
+
+        w2 = icontract.ensure(unstuffed_equals_reference, error=AshContractBroken)(orig_u)
+        w2._rtmon = True
+        cls._unstuff_bytes = staticmethod(w2)
+    if callable(cls.__dict__.get("_change_ack_timeout")) and not getattr(cls._change_ack_timeout, "_rtmon", False):
+        orig_c = cls.__dict__["_change_ack_timeout"]
+
+        def ack_timeout_within_protocol_bounds(self, new_value, result):
+            acc.contract_evals["change_ack_timeout"] += 1
+            v = getattr(self, "_t_rx_ack", None)
+            if v is not None and not (0.4 - 1e-9 <= v <= 3.2 + 1e-9):
+                acc.violation("C05/contract/ack-timeout-outside-protocol-bounds", f"adaptive ACK timeout set to {v}", {"part": "contract"})
+            return True
+
+        w3 = icontract.ensure(ack_timeout_within_protocol_bounds, error=AshContractBroken)(orig_c)
+        w3._rtmon = True
+        cls._change_ack_timeout = w3
